@@ -856,32 +856,12 @@ Proof.
     unfold link_compb in H. destruct (is_blank n); [discriminate | reflexivity].
 Qed.
 
-Lemma captured_incl : forall ln l all, incl l all -> captured ln all = false -> captured ln l = false.
+Lemma store_links_id : forall its,
+  Forall (fun it => i_kind it = KLink -> norm_link (i_link it) = i_link it) its -> store_links its = its.
 Proof.
-  intros ln l all Hi H. unfold captured in *.
-  destruct (existsb (fun o : origin => negb (fst o) && path_eqb ln (origin_text o)) l) eqn:E; [| exact E].
-  apply existsb_exists in E. destruct E as (o & Ho & Hf).
-  assert (existsb (fun o => negb (fst o) && path_eqb ln (origin_text o)) all = true) as C.
-  { apply existsb_exists. exists o. split; [apply Hi; exact Ho | exact Hf]. }
-  congruence.
-Qed.
-
-Definition link_free (c : wctx) (all : list origin) (it : item) : Prop :=
-  i_kind it = KLink -> norm_link (i_link it) = i_link it /\ captured (i_link it) all = false.
-
-Lemma rewrite_links_id : forall c all its seen,
-  incl seen all -> incl (map (origin_of c) its) all -> Forall (link_free c all) its ->
-  rewrite_links c seen its = its.
-Proof.
-  intros c all. induction its as [| it its IH]; intros seen Hs Hi Hf; [reflexivity |].
-  inversion Hf as [| ? ? Hit Hf']; subst. cbn [rewrite_links].
-  assert (Hs' : incl (seen ++ [origin_of c it]) all).
-  { apply incl_app; [exact Hs |]. intros o [<- | []]. apply Hi. left. reflexivity. }
-  rewrite IH; [| exact Hs' | intros o Ho; apply Hi; right; exact Ho | exact Hf'].
-  f_equal. destruct it as [r k m f dt l]. cbn [i_kind i_rel i_mode i_ft i_data i_link] in *.
-  destruct k; try reflexivity.
-  destruct (Hit eq_refl) as [Hn Hc]. cbn [i_link] in Hn, Hc. unfold find_link_target. rewrite Hn.
-  rewrite (captured_incl l _ all Hs' Hc). reflexivity.
+  intros its H. unfold store_links. induction H as [| it its Hit _ IH]; [reflexivity |].
+  cbn [map]. rewrite IH. f_equal. destruct it as [r k m f dt l]. cbn [i_kind i_rel i_mode i_ft i_data i_link] in *.
+  destruct k; try reflexivity. unfold find_link_target. rewrite (Hit eq_refl). reflexivity.
 Qed.
 
 (* ================================================================== what extractall plans *)
@@ -1029,48 +1009,21 @@ Proof.
 Qed.
 
 (* ================================================================== the round trip *)
-(* no link's (normalised) text is the path, as handed to writeall, of a member: _find_link_target then stores
-   the text itself *)
-Definition no_capture (c : wctx) (t : node) : Prop :=
-  Forall (fun it => i_kind it = KLink ->
-            captured (norm_link (i_link it)) (map (origin_of c) (items t)) = false) (items t).
-
-Lemma abs_no_capture : forall c t, c_abs c = true -> no_capture c t.
-Proof.
-  intros c t H. unfold no_capture. apply Forall_forall. intros it _ _. unfold captured.
-  induction (items t) as [| i l IH]; [reflexivity |]. cbn [map existsb]. rewrite IH.
-  unfold origin_of at 1. cbn [fst]. rewrite H. reflexivity.
-Qed.
-
-Definition no_captureb (c : wctx) (t : node) : bool :=
-  forallb (fun it => negb (kind_eqb (i_kind it) KLink) ||
-                     negb (captured (norm_link (i_link it)) (map (origin_of c) (items t)))) (items t).
-Lemma no_captureb_ok : forall c t, no_captureb c t = true -> no_capture c t.
-Proof.
-  intros c t H. unfold no_captureb in H. rewrite forallb_forall in H. unfold no_capture. apply Forall_forall.
-  intros it Hin Hk. specialize (H it Hin). rewrite Hk in H. cbn [kind_eqb negb orb] in H.
-  destruct (captured _ _); [discriminate | reflexivity].
-Qed.
-
 Lemma walk_ok : forall c t d its,
-  c_deref c = false -> wf_tree d t -> no_capture c t ->
+  c_deref c = false -> wf_tree d t ->
   filter (fun it => negb (skipped c it)) (items t) = its ->
   Forall (fun it => Forall wf_name (arcpre c ++ i_rel it) /\ nodrive (arcpre c ++ i_rel it)) its ->
   walk c t = Ok (map (ent c) its).
 Proof.
-  intros c t d its Hd Hwf Hnc Hfil Hfin. unfold walk, source_tree, walk_items. rewrite Hd.
+  intros c t d its Hd Hwf Hfil Hfin. unfold walk, source_tree, walk_items. rewrite Hd.
   rewrite canon_sorted by (eapply wf_sorted; exact Hwf). rewrite Hfil.
   assert (Hsub : incl its (items t)).
   { intros it Hin. rewrite <- Hfil in Hin. apply filter_In in Hin. tauto. }
-  rewrite (rewrite_links_id c (map (origin_of c) (items t))).
+  rewrite store_links_id.
   - apply map_res_ok. eapply Forall_impl; [| exact Hfin]. intros it [H1 H2]. apply finish_ok; assumption.
-  - intros o [].
-  - intros o Ho. apply in_map_iff in Ho. destruct Ho as (it & <- & Hit). apply in_map. apply Hsub. exact Hit.
   - apply Forall_forall. intros it Hit Hk.
     pose proof (items_ok t d Hwf) as Hok. rewrite Forall_forall in Hok. destruct (Hok it (Hsub it Hit)) as [_ Hl].
-    destruct (Hl Hk) as (Hne & Hc & _).
-    unfold no_capture in Hnc. rewrite Forall_forall in Hnc. specialize (Hnc it (Hsub it Hit) Hk).
-    rewrite norm_link_id in Hnc by assumption. split; [apply norm_link_id; assumption | exact Hnc].
+    destruct (Hl Hk) as (Hne & Hc & _). apply norm_link_id; assumption.
 Qed.
 
 Lemma passes : forall ch, sorted_ch ch -> sorted_sub ch -> forall m ft,
@@ -1100,21 +1053,32 @@ Proof.
   - unfold wf_sub in H. rewrite Forall_forall in H. destruct (H _ Hin) as [_ Hc]. eapply items_ops3. exact Hc.
 Qed.
 
-(* ---- writeall('.') in the directory itself: the root has no entry, its children are the top of the archive *)
+Lemma bare_dot_arcpre : forall c, is_bare_dot c = true -> arcpre c = [].
+Proof.
+  intros c H. unfold is_bare_dot in H. unfold arcpre.
+  destruct (c_arc c); [rewrite andb_false_r in H; discriminate |].
+  destruct (c_base c); [reflexivity |]. rewrite andb_false_r in H. discriminate.
+Qed.
+Lemma named_not_bare : forall c, arcpre c <> [] -> is_bare_dot c = false.
+Proof.
+  intros c H. destruct (is_bare_dot c) eqn:E; [| reflexivity]. apply bare_dot_arcpre in E. contradiction.
+Qed.
+
+(* ---- writeall('.') without arcname: the root has no entry, its children are the top of the archive *)
 Theorem roundtrip_dot : forall c m ft ch a b,
-  c_deref c = false -> arcpre c = [] -> c_cwd c = Some [] ->
-  wf_tree 0 (Dir m ft ch) -> no_capture c (Dir m ft ch) ->
+  c_deref c = false -> is_bare_dot c = true ->
+  wf_tree 0 (Dir m ft ch) ->
   Forall (fun nc => drive_like (fst nc) = false) ch ->
   roundtrip c (Dir m ft ch) (Dir a b []) = Ok (Dir a b ch).
 Proof.
-  intros c m ft ch a b Hd Hpre Hcwd Hwf Hnc Hdrv.
+  intros c m ft ch a b Hd Hbare Hwf Hdrv. pose proof (bare_dot_arcpre c Hbare) as Hpre.
   pose proof (items_ok _ _ Hwf) as Hok. rewrite items_dir in Hok. inversion Hok as [| ? ? _ Hok']; subst.
   pose proof (wf_sorted _ _ Hwf) as Hst. pose proof (items_sorted _ Hst) as Hss.
   rewrite items_dir in Hss. cbn [map] in Hss. inversion Hss as [| ? ? Hss' _]; subst.
   apply wf_tree_dir in Hwf. destruct Hwf as (Hm & Hs & Hsub).
   assert (Hwf : wf_tree 0 (Dir m ft ch)) by (apply wf_tree_dir; auto).
   unfold roundtrip.
-  rewrite (walk_ok c (Dir m ft ch) 0 (sub_items ch) Hd Hwf Hnc).
+  rewrite (walk_ok c (Dir m ft ch) 0 (sub_items ch) Hd Hwf).
   - cbn [bind]. unfold rebuild. rewrite plan_of_ents.
     + cbn [bind].
       assert (Hok2 : Forall (item_ok (Z.of_nat (length (arcpre c)))) (sub_items ch)) by (rewrite Hpre; exact Hok').
@@ -1125,9 +1089,9 @@ Proof.
         cbn [app]. rewrite E. discriminate.
     + rewrite Hpre. cbn [app]. eapply Forall_impl; [| exact Hok']. intros it [H _]. exact H.
     + rewrite Hpre. cbn [app]. apply SSorted_NoDup. exact Hss'.
-  - rewrite items_dir. cbn [filter]. unfold skipped at 1. cbn [i_kind i_rel]. rewrite Hcwd. cbn [path_eqb path_cmp lex_cmp negb].
+  - rewrite items_dir. cbn [filter]. unfold skipped at 1. cbn [i_kind i_rel]. rewrite Hbare. cbn [negb].
     apply filter_id. apply Forall_forall. intros it Hin. destruct (sub_items_head ch it Hin) as (n & r & E & _).
-    unfold skipped. rewrite Hcwd, E. destruct (i_kind it); reflexivity.
+    unfold skipped. rewrite E. destruct (i_kind it); reflexivity.
   - rewrite Hpre. cbn [app]. apply Forall_forall. intros it Hin.
     rewrite Forall_forall in Hok'. destruct (Hok' it Hin) as [Hn _]. split; [exact Hn |].
     destruct (sub_items_head ch it Hin) as (n & r & E & Hk). rewrite E. cbn [nodrive].
@@ -1144,20 +1108,20 @@ Qed.
 Lemma sub_ops_single : forall f n t, sub_ops f [(n, t)] = map (push_op n) (f t).
 Proof. intros. unfold sub_ops. cbn [flat_map]. apply app_nil_r. Qed.
 
-(* ---- writeall(path[, arcname]) with a name for the root: the root's entry comes first *)
+(* ---- writeall(path[, arcname]) with a name for the root (also '.' with an arcname): the root's entry comes first *)
 Theorem roundtrip_named : forall c t a b,
-  c_deref c = false -> arcpre c <> [] -> c_cwd c = None ->
+  c_deref c = false -> arcpre c <> [] ->
   Forall wf_name (arcpre c) -> nodrive (arcpre c) ->
-  wf_tree (Z.of_nat (length (arcpre c))) t -> no_capture c t ->
+  wf_tree (Z.of_nat (length (arcpre c))) t ->
   roundtrip c t (Dir a b []) = Ok (expected (arcpre c) t a b).
 Proof.
-  intros c t a b Hd Hne Hcwd Hpn Hpd Hwf Hnc.
+  intros c t a b Hd Hne Hpn Hpd Hwf.
   pose proof (items_ok _ _ Hwf) as Hok.
   pose proof (wf_sorted _ _ Hwf) as Hst. pose proof (items_sorted _ Hst) as Hss.
   assert (Hnames : Forall (fun it => Forall wf_name (arcpre c ++ i_rel it)) (items t)).
   { eapply Forall_impl; [| exact Hok]. intros it [H _]. apply Forall_app. split; assumption. }
   unfold roundtrip.
-  rewrite (walk_ok c t _ (items t) Hd Hwf Hnc).
+  rewrite (walk_ok c t _ (items t) Hd Hwf).
   - cbn [bind]. unfold rebuild. rewrite plan_of_ents; [| exact Hnames |].
     + cbn [bind]. rewrite ops_of_plan; try assumption.
       * rewrite items_ops1, items_ops2, (items_ops3 t _ Hwf).
@@ -1178,28 +1142,29 @@ Proof.
            rewrite run_chain, R. cbn [bind app expected]. rewrite wrapdirs_app. reflexivity.
       * apply Forall_forall. intros it _. destruct (arcpre c); [contradiction | discriminate].
     + rewrite <- (map_map i_rel (app (arcpre c))). apply SSorted_NoDup. apply SSorted_map_app. exact Hss.
-  - apply filter_id. apply Forall_forall. intros it _. unfold skipped. rewrite Hcwd. destruct (i_kind it); reflexivity.
+  - apply filter_id. apply Forall_forall. intros it _. unfold skipped. rewrite (named_not_bare c Hne).
+    destruct (i_kind it); [reflexivity | destruct (i_rel it); reflexivity | reflexivity].
   - eapply Forall_impl; [| exact Hnames]. intros it H. split; [exact H |].
     destruct (arcpre c) as [| x r]; [contradiction | exact Hpd].
 Qed.
 
 (* ---- both together *)
 Definition ctx_ok (c : wctx) (t : node) : Prop :=
-  c_deref c = false /\ Forall wf_name (arcpre c) /\ no_capture c t /\
+  c_deref c = false /\ Forall wf_name (arcpre c) /\
   match arcpre c with
-  | [] => c_cwd c = Some [] /\
+  | [] => is_bare_dot c = true /\
           match t with Dir _ _ ch => Forall (fun nc => drive_like (fst nc) = false) ch | _ => False end
-  | n :: _ => c_cwd c = None /\ drive_like n = false
+  | n :: _ => drive_like n = false
   end.
 
 Theorem tree_roundtrip : forall c t a b,
   ctx_ok c t -> wf_tree (Z.of_nat (length (arcpre c))) t ->
   roundtrip c t (Dir a b []) = Ok (expected (arcpre c) t a b).
 Proof.
-  intros c t a b (Hd & Hn & Hnc & Hm) Hwf. destruct (arcpre c) as [| x r] eqn:E.
-  - destruct Hm as [Hcwd Ht]. destruct t as [| m ft ch |]; try contradiction.
+  intros c t a b (Hd & Hn & Hm) Hwf. destruct (arcpre c) as [| x r] eqn:E.
+  - destruct Hm as [Hbare Ht]. destruct t as [| m ft ch |]; try contradiction.
     cbn [expected]. apply roundtrip_dot; assumption.
-  - destruct Hm as [Hcwd Hx]. rewrite <- E. apply roundtrip_named; rewrite ?E; try assumption; discriminate.
+  - rewrite <- E. apply roundtrip_named; rewrite ?E; try assumption; discriminate.
 Qed.
 
 (* ================================================================== dereference *)
@@ -1245,14 +1210,12 @@ Proof.
     specialize (IHc H2). rewrite Forall_forall in IHc. exact (IHc _ Hin').
 Qed.
 
-Lemma rewrite_links_nolinks : forall c its seen, Forall (fun it => i_kind it <> KLink) its ->
-  rewrite_links c seen its = its.
+Lemma store_links_nolinks : forall its, Forall (fun it => i_kind it <> KLink) its -> store_links its = its.
 Proof.
-  intros c. induction its as [| it its IH]; intros seen H; [reflexivity |]. inversion H; subst.
-  cbn [rewrite_links]. rewrite IH by assumption. destruct (i_kind it) eqn:K; try reflexivity. contradiction.
+  intros its H. apply store_links_id. eapply Forall_impl; [| exact H]. intros it Hk Hk'. contradiction.
 Qed.
 
-Definition set_deref (c : wctx) (b : bool) : wctx := mkC (c_abs c) (c_base c) (c_arc c) (c_cwd c) b.
+Definition set_deref (c : wctx) (b : bool) : wctx := mkC (c_abs c) (c_base c) (c_arc c) b.
 
 (* with dereference on, writeall archives the tree in which every link is replaced by what it points to *)
 Theorem walk_deref : forall c t t',
@@ -1261,7 +1224,7 @@ Theorem walk_deref : forall c t t',
 Proof.
   intros c t t' Hd He Hs. unfold walk, source_tree. rewrite Hd, He. cbn [set_deref c_deref].
   unfold walk_items. rewrite Hd. cbn [set_deref c_deref]. rewrite canon_sorted by exact Hs.
-  rewrite rewrite_links_nolinks; [reflexivity |].
+  rewrite store_links_nolinks; [reflexivity |].
   pose proof (nolinks_items t' (expand_nolinks _ _ _ _ _ _ He)) as H. rewrite Forall_forall in *.
   intros it Hin. apply filter_In in Hin. apply H. tauto.
 Qed.
@@ -1277,30 +1240,34 @@ Proof.
 Qed.
 
 (* ================================================================== where the full statement fails *)
-(* contexts: writeall('.') in the directory; writeall('.', arcname='x') in the directory *)
-Definition ctx_dot : wctx := mkC false [] None (Some []) false.
-Definition ctx_dotarc : wctx := mkC false [] (Some [[120]]) (Some []) false.
-Definition ctx_rel : wctx := mkC false [[115; 114; 99]] None None false.           (* writeall("src") *)
+(* contexts: writeall('.'); writeall('.', arcname='x'); writeall("src") *)
+Definition ctx_dot : wctx := mkC false [] None false.
+Definition ctx_dotarc : wctx := mkC false [] (Some [[120]]) false.
+Definition ctx_rel : wctx := mkC false [[115; 114; 99]] None false.
 Definition n_a : name := [97].
 Definition n_d : name := [100].
 Definition n_l : name := [108].
 
-(* d/l -> "a" (its sibling d/a) comes back as d/l -> "../a" (the other a) *)
+(* repaired (were witnesses against the round trip): d/l -> "a" next to a top-level a keeps its text; an empty
+   directory archived as writeall('.', 'x') is there, with its mode and time *)
 Definition t_capture : node :=
   Dir 493 1 [(n_a, File 420 2 [1]); (n_d, Dir 493 3 [(n_a, File 420 4 [2]); (n_l, Link [n_a])])].
-Lemma refuted_capture :
-  wf_tree 0 t_capture /\
-  roundtrip ctx_dot t_capture (Dir 0 0 []) =
-    Ok (Dir 0 0 [(n_a, File 420 2 [1]); (n_d, Dir 493 3 [(n_a, File 420 4 [2]); (n_l, Link [dotdot; n_a])])]).
+Lemma fixed_capture :
+  wf_tree 0 t_capture /\ ctx_ok ctx_dot t_capture /\
+  roundtrip ctx_dot t_capture (Dir 0 0 []) = Ok (expected [] t_capture 0 0).
 Proof.
-  split; [| vm_compute; reflexivity].
-  simpl. unfold wf_link, sorted_ch, wf_name. repeat split; try lia; try discriminate; repeat constructor.
+  split; [| split; [| vm_compute; reflexivity]].
+  - simpl. unfold wf_link, sorted_ch, wf_name. repeat split; try lia; try discriminate; repeat constructor.
+  - unfold ctx_ok. split; [reflexivity |]. split; [constructor |]. cbn. split; [reflexivity | repeat constructor].
 Qed.
-
-(* an empty directory archived as writeall('.', 'x') from inside it leaves no trace *)
-Lemma refuted_cwd :
-  wf_tree 1 (Dir 448 7 []) /\ roundtrip ctx_dotarc (Dir 448 7 []) (Dir 0 0 []) = Ok (Dir 0 0 []).
-Proof. split; [| vm_compute; reflexivity]. simpl. repeat split; try lia. constructor. Qed.
+Lemma fixed_cwd :
+  wf_tree 1 (Dir 448 7 []) /\ ctx_ok ctx_dotarc (Dir 448 7 []) /\
+  roundtrip ctx_dotarc (Dir 448 7 []) (Dir 0 0 []) = Ok (Dir 0 0 [([120], Dir 448 7 [])]).
+Proof.
+  split; [| split; [| vm_compute; reflexivity]].
+  - simpl. repeat split; try lia. constructor.
+  - unfold ctx_ok. split; [reflexivity |]. split; [repeat constructor |]. reflexivity.
+Qed.
 
 (* "c:foo" at the top comes back as "foo" *)
 Definition n_cfoo : name := [99; 58; 102; 111; 111].
@@ -1319,12 +1286,12 @@ Lemma refuted_linktext :
     Ok (Dir 0 0 [([115; 114; 99], Dir 493 1 [(n_a, File 420 2 [1]); (n_l, Link [n_a])])]).
 Proof. vm_compute. reflexivity. Qed.
 
-(* the statement without the side conditions of ctx_ok: false *)
+(* the statement without the side condition on letter+colon names: false *)
 Theorem tree_roundtrip_refuted :
   exists c t, c_deref c = false /\ wf_tree (Z.of_nat (length (arcpre c))) t /\
               roundtrip c t (Dir 0 0 []) <> Ok (expected (arcpre c) t 0 0).
 Proof.
-  exists ctx_dot, t_capture. split; [reflexivity |]. destruct refuted_capture as [H1 H2].
+  exists ctx_dot, (Dir 493 1 [(n_cfoo, File 420 2 [1])]). split; [reflexivity |]. destruct refuted_drive as [H1 H2].
   split; [exact H1 |]. rewrite H2. vm_compute. discriminate.
 Qed.
 
@@ -1345,15 +1312,10 @@ Qed.
 Lemma example_ctx_dot : ctx_ok ctx_dot t_example.
 Proof.
   unfold ctx_ok. split; [reflexivity |]. split; [constructor |].
-  split; [apply no_captureb_ok; vm_compute; reflexivity |].
-  cbn [arcpre ctx_dot c_arc c_base c_cwd t_example]. split; [reflexivity | repeat constructor].
+  cbn [arcpre ctx_dot c_arc c_base t_example]. split; [reflexivity | repeat constructor].
 Qed.
 Lemma example_ctx_rel : ctx_ok ctx_rel t_example.
-Proof.
-  unfold ctx_ok. split; [reflexivity |]. split; [repeat constructor |].
-  split; [apply no_captureb_ok; vm_compute; reflexivity |].
-  cbn [arcpre ctx_rel c_arc c_base c_cwd]. split; reflexivity.
-Qed.
+Proof. unfold ctx_ok. split; [reflexivity |]. split; [repeat constructor | reflexivity]. Qed.
 Lemma example_roundtrip :
   roundtrip ctx_dot t_example (Dir 0 0 []) = Ok (expected [] t_example 0 0) /\
   roundtrip ctx_rel t_example (Dir 0 0 []) = Ok (expected [[115; 114; 99]] t_example 0 0).
